@@ -346,3 +346,28 @@ Proof.
   - exists [GOrphan]. eexists. cbn [run step]. rewrite G, Dn. split; [reflexivity|]. cbn. split; [lia|]. split; [reflexivity|]. constructor; [right; reflexivity | constructor].
   - exists []. exists s. cbn. split; [reflexivity|]. split; [lia|]. split; [exact G | constructor].
 Qed.
+
+(* NO LOSS WHILE SOME HANDLE KEEPS ACCEPTING, as progress: in every reachable state in which the
+   socket is open and some handle h has an AcceptStream call pending, a connection that has
+   reached the socket is handed to h after at most one step of the accept goroutine *)
+Lemma no_loss_progress_lemma tr s h :
+  run sl0 tr = Some s -> sock s = Open -> has_handle s h = true -> h_pending (hstate s h) = true ->
+  (forall c, g s = GHolding c ->
+     exists s', step s (Deliver h) = Some s' /\ In (h, c) (delivered s') /\ g s' = GAccepting) /\
+  (forall c r, kq s = c :: r -> (forall c', g s <> GHolding c') ->
+     exists s1 s2, step s GAccept = Some s1 /\ step s1 (Deliver h) = Some s2 /\ In (h, c) (delivered s2) /\ kq s2 = r).
+Proof.
+  intros R So Hh Hp. pose proof (inv_run tr sl0 s inv0 R) as I.
+  destruct I as (IP & IND & IC & IO & IU & ID & IGN & ICH & IGE & IKQ & IH & IDL).
+  split.
+  - intros c G. cbn [step]. rewrite G, Hh, Hp. cbn [andb]. eexists. split; [reflexivity|]. cbn [delivered g].
+    split; [apply in_or_app; right; left; reflexivity | reflexivity].
+  - intros c r K Hn.
+    assert (G : g s = GAccepting).
+    { destruct (g s) as [| |c'|] eqn:E; [| reflexivity | exfalso; apply (Hn c'); reflexivity |].
+      - specialize (IGN eq_refl). congruence.
+      - specialize (IGE eq_refl). congruence. }
+    cbn [step]. rewrite G, So, K. eexists. eexists. split; [reflexivity|].
+    cbn [step g handles hstate]. unfold has_handle in *. cbn [handles]. rewrite Hh, Hp. cbn [andb].
+    split; [reflexivity|]. cbn [delivered kq]. split; [apply in_or_app; right; left; reflexivity | reflexivity].
+Qed.
